@@ -15,7 +15,7 @@ Open Scope string_scope.
 
 Inductive wkind := WSlot | WElem | WAddr.
 Record inv_write := mk_w { w_func : string; w_kind : wkind }.
-Record inv_loc := mk_loc { l_id : string; l_selfsync : bool; l_writes : list inv_write }.
+Record inv_loc := mk_loc { l_id : string; l_type : string; l_selfsync : bool; l_writes : list inv_write }.
 
 (* lock-guarded locations: (id, guard, where the accesses are checked) *)
 Definition guarded_locs : list (string * string) :=
@@ -68,5 +68,37 @@ Definition stale (ls : list inv_loc) : list string :=
   map fst (filter (fun e => negb (existsb (fun l => String.eqb (fst e) (l_id l)) ls)) guarded_locs) ++
   map fst (filter (fun e => negb (existsb (fun l => String.prefix (fst e) (l_id l)) ls)) confined).
 
+(* Locks.  Every location whose type is a mutex (or a slice of mutexes) must be one of the locks the deadlock model
+   of C14 knows: the regenerated skeletons cover packages cache, utils/event and utils/syncmap, whose locks are
+   ranked Mu < Shard i < Leaf n (Model/Sync.v).  A mutex that appears anywhere else is outside that model. *)
+Fixpoint contains (needle hay : string) : bool :=
+  match hay with
+  | EmptyString => String.prefix needle hay
+  | String _ rest => String.prefix needle hay || contains needle rest
+  end.
+Definition is_lock_type (t : string) : bool := contains "sync.Mutex" t || contains "sync.RWMutex" t.
+
+Definition known_locks : list (string * string) :=
+  [ ("cache.FileCache.mu", "index lock: Mu");
+    ("cache.FileCache.locks", "entry shard locks: Shard i");
+    ("cache.MemoryCache.mu", "index lock: Mu");
+    ("cache.MemoryCache.locks", "entry shard locks: Shard i");
+    ("cache.cacheFunctions.getLock", "accessor of the owning cache's shard locks");
+    ("utils/event.Event.mu", "leaf lock: Leaf");
+    ("utils/syncmap.SyncMap.mu", "leaf lock: Leaf");
+    ("utils/writesynced.WriteSynced.mu", "generic wrapper, not instantiated anywhere in the repository");
+    ("utils/writesynced.ReadLock.mu", "as WriteSynced.mu");
+    ("utils/writesynced.WriteLock.mu", "as WriteSynced.mu")
+  ].
+
+Definition unknown_locks (ls : list inv_loc) : list string :=
+  map l_id (filter (fun l => is_lock_type (l_type l)
+                             && negb (existsb (fun e => String.eqb (fst e) (l_id l)) known_locks)) ls).
+Definition missing_locks (ls : list inv_loc) : list string :=
+  map fst (filter (fun e => negb (existsb (fun l => String.eqb (fst e) (l_id l) && is_lock_type (l_type l)) ls)) known_locks).
+
 Definition inventory_ok (ls : list inv_loc) : bool :=
-  match unclassified ls, stale ls with [], [] => true | _, _ => false end.
+  match unclassified ls, stale ls, unknown_locks ls, missing_locks ls with
+  | [], [], [], [] => true
+  | _, _, _, _ => false
+  end.
